@@ -836,6 +836,11 @@ func (ev *SpecEnv) call(n *Node) Val {
 	if sf, ok := ex.db.Funcs[name]; ok {
 		return ev.applySpecFunc(sf, n)
 	}
+	if i := strings.LastIndex(name, "."); i >= 0 {
+		if sf, ok := ex.db.Funcs[name[i+1:]]; ok {
+			return ev.applySpecFunc(sf, n)
+		}
+	}
 	// conversion?
 	if len(n.Args) == 1 && ex.isTypeName(name, ev.pkg) {
 		to := ex.resolveType(name, ev.pkg)
